@@ -21,5 +21,29 @@ def contracts():
         })]
 
 
+def lua_contracts():
+    """make_frame's argument loop (the Lua view), per-argument obligations at the store"""
+    return [Contract(
+        target="luaexec:call_lua_sandbox.make_frame", prop="C14", mode="frame",
+        params={"pframe": "opq", "title": "str", "args": "opq"},
+        track_log=True, log_names=["warning"], merge_threshold=400,
+        asserts={"frame_args[k] = (arg, m is not None)": [
+            # a positional argument is keyed by the running counter, incremented once for it
+            "implies(m is None, k == num - 1)",
+        ]},
+        loops={"for arg in args": {"invariant": [],
+                                   # the counter of positional arguments moves only when a positional argument
+                                   # is stored (statement of the property: numbered counting positional ones only)
+                                   "iteration_post": ["implies(m is not None, num == num_at_head)"]}},
+    )]
+
+
 def setup_registry(reg):
     c04.setup_registry(reg)
+
+
+_orig_contracts = contracts
+
+
+def all_contracts():
+    return _orig_contracts() + lua_contracts()
